@@ -203,6 +203,11 @@ class World:
         except RecursionError:
             raise
         except Exception as e:  # noqa: BLE001
+            # keep the exception, drop its traceback: the frames in it would keep the operands alive in a
+            # reference cycle (exception -> traceback -> frame -> si -> exception) that the model knows nothing about
+            e.__traceback__ = None
+            e.__context__ = None
+            e.__cause__ = None
             si.exc = e
             return None
 
@@ -227,7 +232,7 @@ class World:
     def op_vec_tuple(self, step):
         """vectors built over one of a few caller-owned tuples: the only way two vectors share storage"""
         si = StepInfo("vec_tuple", "construct")
-        k = step[1] % 3
+        k = step[1] % 2
         if k not in self.tuples:
             n = self.length_for(step[2])
             self.tuples[k] = (tuple(self.vals(step, n)), self.new_token())
@@ -657,7 +662,8 @@ class World:
         si = StepInfo(name, "write")
         si.operands = [a]
         si.may_change = self.write_set(a)
-        si.info.update(key=key, form=form, value=val, positions=positions, target=a.id, before=snap(a.obj), wrong_len=wrong_len)
+        si.info.update(key=key, form=form, value=val, positions=positions, target=a.id, before=snap(a.obj), wrong_len=wrong_len,
+                       token_before=a.token)
 
         def do():
             a.obj[key] = val
@@ -877,6 +883,8 @@ class World:
 def run_program(prog, hooks):
     """run one program in a clean world; the previous case must not leak objects into this one"""
     gc.collect()
+    # no state flows between cases: the library's process-wide alias registry starts empty
+    S._ALIAS_TRACKER._registry.clear()
     w = World(hooks)
     try:
         w.run(prog)
